@@ -9,6 +9,7 @@ WAL on + synchronous=FULL (encoded as path assumptions):
  R3 COMMIT-LOGS        the COMMIT entry must-pass a log append+sync when dirty pages exist.
  R4 ERR-DROP           no Result is discarded on the commit/flush/checkpoint/close slice (frozen exceptions).
  R5 DDL-SYNC           every DDL entry must-pass catalog save, which must-pass File::sync_all.
+ R9 MUTATION-LOGGED   with WAL enabled, every DML B-tree mutation goes through the dirty-tracking wrapper (shared with C38 L2).
  R6 TRUNCATE-AFTER-SYNC every WAL truncate / segment removal is preceded by a sync of the replayed storages.
 """
 from paths import (source_call, from_field, call_named, atomic_load_of, Assume, must_pass, order_after, must_reach_closure,
@@ -238,3 +239,7 @@ def run(ctx):
 
     # ---------------- R8: every page drained from the dirty tracker is logged ----------------
     common.drained_logged(ctx, "R8.DRAINED-LOGGED")
+
+    # ---------------- R9: with WAL enabled no DML B-tree mutation bypasses the dirty-tracking wrapper ----------------
+    # (a page written through a raw MmapStorage is never dirty-tracked, hence never logged: the acknowledged change is not in the log)
+    common.unwrapped_mutations(ctx, "R9.MUTATION-LOGGED")
